@@ -28,7 +28,13 @@ def run(ctx):
     # q / t: conflict-heavy acyclic alphabet (3 files); q2 / t2: require cycles of 2 and 3 files (plus files that
     # require a cycle member) whose members contribute to the same class table / global / class field; a fourth
     # file declares the class table
-    cfgs = ctx.pick(["AnalysisDb_c11_q", "AnalysisDb_c11_q2"], ["AnalysisDb_c11_t", "AnalysisDb_c11_t2"])
+    # q3 / t3 (second seeded round): workspaces with THREE roots (library /liba, library /libb, main /ws; the layout
+    # is part of the spec: DirOf / LibDirs / RootOrder) where a library requires the inferred export of the other
+    # library (in either direction) and publishes it as a global that main reads
+    cfgs = ctx.pick(["AnalysisDb_c11_q", "AnalysisDb_c11_q2", "AnalysisDb_c11_q3"],
+                    ["AnalysisDb_c11_t", "AnalysisDb_c11_t2", "AnalysisDb_c11_t3"])
+    if os.environ.get("ADB_ONLY"):      # development aid: restrict to the named configurations
+        cfgs = os.environ["ADB_ONLY"].split(",")
     results = adb.run_tlc_many(ctx, cfgs, workers_each=ctx.pick(2, 4), timeout=ctx.pick(900, 2400))
     texts = None
     by_ws = {}
@@ -59,15 +65,23 @@ def run(ctx):
     vlib.build(["vh-analysis"])
     keys = sorted(by_ws)
     cases = []
+    lib_cases = 0
     for i, key in enumerate(keys):
         init = json.loads(key)
         reg = sorted(p for p, v in init.items() if v != "-")
-        step = {"op": "batch", "files": [[adb.path_of(p), texts[init[p]]] for p in reg]}
+        dirs = by_ws[key][0]["step"].get("dirs") or {}
+        libs = by_ws[key][0]["step"].get("libs") or []
+        step = {"op": "batch", "files": [[adb.path_of(p, dirs), texts[init[p]]] for p in reg]}
         # the model's result for the file-id order (what a batch that sorts by file id must give)
         ideal = [r for r in by_ws[key] if r["step"]["dev"] == []]
         if ideal:
             step["model"] = adb.model_of(ideal[0]["step"])
-        cases.append({"id": i, "requires": ["a", "b", "c", "d"], "steps": [step]})
+        case = {"id": i, "requires": ["a", "b", "c", "d"], "steps": [step]}
+        if libs:
+            # main first, then the libraries in the spec's order (their workspace ids ascend in this order)
+            case["roots"] = [{"path": "/ws", "kind": "main"}] + [{"path": d, "kind": "lib"} for d in libs]
+            lib_cases += 1
+        cases.append(case)
     path = os.path.join(ctx.work, "cases.ndjson")
     with open(path, "w") as f:
         for c in cases:
@@ -125,6 +139,7 @@ def run(ctx):
         ctx.count(name, n=nproc, nontrivial=sum(1 for v in init.values() if v != "-") >= 2)
     ctx.validated(len(cases) * nproc)
     ctx.note("workspaces", len(cases))
+    ctx.note("workspaces_with_two_library_roots", lib_cases)
     ctx.note("fresh_processes_per_workspace", nproc)
     ctx.note("analysis_orders_explored_by_tlc", generated)
     ctx.note("workspaces_where_the_order_of_cycle_members_decides_in_the_model", cyc_sensitive)
